@@ -107,7 +107,9 @@ def textPosition (e : Elem) : Except Err (Elem × TextPos) := do
   let (ox, oy) := offsetDelta loc outside offset
   let tdx := tdx + ox
   let tdy := tdy + oy
-  match ← e.bbox with
+  -- a `text` element keeps its own transform, so it is anchored in its own coordinates
+  let e0 := if e.name == cs!"text" && e.hasAttr cs!"transform" then (e.popAttr cs!"transform").1 else e
+  match ← e0.bbox with
   | none => throw Err.missingBBox
   | some bb =>
     let (px, py) := bb.locspec loc
